@@ -92,6 +92,9 @@ def build_variant(variant):
     jobs.append(("hooks.o", [comp] + COMMON + flags + inc + ["-c", os.path.join(SIM, "hooks.cpp"), "-o", os.path.join(d, "hooks.o")]))
     # the scheduler is never instrumented (DESIGN 2.2)
     jobs.append(("sched.o", [comp] + COMMON + ["-O2", "-c", os.path.join(SIM, "sched.cpp"), "-o", os.path.join(d, "sched.o")]))
+    if variant == "tsan":
+        # also uninstrumented: schedule points at every 8-bit atomic access (see sim/atomwrap.cpp)
+        jobs.append(("atomwrap.o", [comp] + COMMON + ["-O2", "-c", os.path.join(SIM, "atomwrap.cpp"), "-o", os.path.join(d, "atomwrap.o")]))
     for e in engines:
         jobs.append((e + ".o", [comp] + COMMON + flags + inc + ["-c", os.path.join(SIM, ENGINE_SRC[e]), "-o", os.path.join(d, e + ".o")]))
 
@@ -106,9 +109,14 @@ def build_variant(variant):
         list(ex.map(run, jobs))
     for e in engines:
         objs = [os.path.join(d, e + ".o"), os.path.join(d, "hooks.o"), os.path.join(d, "ada.o")]
+        wrap = []
         if e == "e1":
             objs.append(os.path.join(d, "sched.o"))
-        r = sh([comp] + lflags + objs + ["-o", os.path.join(d, e)])
+            if variant == "tsan":
+                objs.append(os.path.join(d, "atomwrap.o"))
+                wrap = ["-Wl," + ",".join("--wrap=__tsan_atomic8_" + f for f in
+                                         ("load", "store", "exchange", "compare_exchange_strong", "compare_exchange_weak"))]
+        r = sh([comp] + lflags + wrap + objs + ["-o", os.path.join(d, e)])
         if r.returncode != 0:
             raise RuntimeError(f"link of {e} ({variant}) failed:\n{r.stdout[-4000:]}")
     for f in glob.glob(os.path.join(d, "*.o")):
@@ -440,7 +448,7 @@ def configs_for(prop, tier):
                 ("asan", "e1", ["--mode", "a", "--fault", "ta", "--maxthreads", mt], 5 * t, "c13_ta_asan"),
                 ("tsan", "e1", ["--mode", "a", "--fault", "ta", "--maxthreads", mt], 5 * t, "c13_ta_tsan"),
                 ("asan", "e1", ["--mode", "a", "--fault", "stall", "--maxthreads", mt], 8 * t, "c13_stall_asan"),
-                ("asan", "e1", ["--mode", "a", "--fault", "starve", "--maxthreads", mt], 5 * t, "c13_starve_asan"),
+                ("asan", "e1", ["--mode", "a", "--fault", "starve", "--maxthreads", mt, "--maxviol", "1000000"], 5 * t, "c13_starve_asan"),
                 ("tsan", "e1", ["--mode", "b", "--maxthreads", mt], 8 * t, "c13_b_tsan"),
                 ("asan", "e1", ["--mode", "b", "--maxthreads", mt], 8 * t, "c13_b_asan")]
     raise SystemExit(f"no configuration for {prop}")
